@@ -5,7 +5,7 @@ import logging
 
 from .util import (Source, print_dump, get_marked_atribute, split_pkg,
                    get_marked_name, get_marked_import, get_all_usages, join_pkg,
-                   marked)
+                   marked, SOURCE_MARK)
 from .evaluator import EvalCtx
 from .nast import extract_scope
 
@@ -119,14 +119,24 @@ def location(project, source, position, filename=None, debug=False):
         if node:
             result = ctx.declarations(node, [])
 
+    def loc_of(name):
+        loc = _loc_of(name)
+        if loc and loc['file'] == source.filename:
+            # right of the cursor on its own line the analysed text holds the
+            # cursor mark: report the column of the text as it was given
+            ln, col = loc['loc']
+            if ln == position[0] and col > position[1]:
+                loc['loc'] = ln, col - len(SOURCE_MARK)
+        return loc
+
     locs = []
     for r in result:
         if isinstance(r, list):
-            alts = [it for it in (_loc_of(n) for n in r) if it]
+            alts = [it for it in (loc_of(n) for n in r) if it]
             if alts:
                 locs.append(alts)
         else:
-            loc = _loc_of(r)
+            loc = loc_of(r)
             if loc:
                 locs.append(loc)
 
